@@ -30,6 +30,9 @@ structure VM where
   globals : Array Value := #[]
   /-- suspended callers, most recent first (`frames` of vm.rs without its last element) -/
   frames : List Frame := []
+  /-- number of suspended callers, `frames.length` (kept beside the list so that the frame-limit test of `Call`
+      costs O(1); `Proofs/C12: C12_depth_is_frames`) -/
+  depth : Nat := 0
   ip : Nat := 0
   bp : Nat := 0
   mem : Mem := {}
@@ -100,7 +103,7 @@ def doReturn (s : VM) (result : Value) (extra : List Value) : Step :=
   | [] => .fault "popframe"
   | fr :: rest =>
     if s.stack.size < s.bp then .fault "popframe-truncate" else
-    let s1 : VM := { s with stack := s.stack.extract 0 s.bp, frames := rest, ip := fr.ip, bp := fr.bp }
+    let s1 : VM := { s with stack := s.stack.extract 0 s.bp, frames := rest, depth := s.depth - 1, ip := fr.ip, bp := fr.bp }
     -- `GC::run` returns at once when it manages nothing; the roots are only collected otherwise
     let m := if s1.mem.managed.isEmpty then s1.mem else GC.run s1.mem (s1.roots extra)
     .next { s1 with mem := m, stack := s1.stack.push result }
@@ -197,12 +200,12 @@ def exec (i : Instr) (ip' : Nat) (s : VM) : Step :=
     | none => .fault "pop"
     | some (.fn fip nl, st) =>
       if argc > nl then .error .argument { s with stack := st }
-      else if st.size + nl > STACK_LIMIT || s.frames.length + 1 ≥ STACK_LIMIT then
+      else if st.size + nl > STACK_LIMIT || s.depth + 1 ≥ STACK_LIMIT then
         .error .index { s with stack := st }
       else if st.size < argc then .fault "call-base-pointer"
       else
         .next { s with stack := st ++ Array.replicate (nl - argc) .null,
-                       frames := { ip := ip', bp := s.bp } :: s.frames,
+                       frames := { ip := ip', bp := s.bp } :: s.frames, depth := s.depth + 1,
                        ip := fip, bp := st.size - argc }
     | some (_, st) => .error .type { s with stack := st }
   | .callBuiltin b argc =>
@@ -289,7 +292,7 @@ def loadConsts : List Const → Mem × Array Value → Mem × Array Value
     frames are reset) -/
 def VM.start (prev : VM) (bc : Bytecode) : VM :=
   let (m, cv) := loadConsts bc.consts ({ heap := prev.mem.heap, managed := [] }, #[])
-  { stack := #[], globals := prev.globals, frames := [], ip := 0, bp := 0, mem := m,
+  { stack := #[], globals := prev.globals, frames := [], depth := 0, ip := 0, bp := 0, mem := m,
     last := .null, out := [], cvals := cv }
 
 /-- what happens when `run` returns: on `Halt` the result graph is handed over (`untrace`), then
